@@ -103,7 +103,7 @@ theorem C11_links_time_consistent (ok : LatticeOK G L) (l : Link) (hl : l ∈ L.
     | true =>
       obtain ⟨h1, h2, h3⟩ := ht.2.1 hs hd
       have hne := (ok.startEnd.1 l hl).1
-      have h4 := ((ok.nodeTimes l.dst hep.2).2 hd).2 hne
+      have h4 := ((ok.nodeTimes l.dst hep.2).2 hd).2.1 hne
       have h5 := (ok.nodeTimes l.src hep.1).1 hs
       exact ⟨h1, h4, h2, rfl, h3, by omega⟩
 
